@@ -24,7 +24,9 @@ def _selftest(prop: str, rc: int) -> int:
     with Workdir(prop + "-selftest") as wd:
         fails = selftest.run_for([prop], wd)
     n = len(selftest.NEG.get(prop, []))
-    ev_path = f"/verif/evidence/{prop}.json"
+    from .common import EVID_DIR
+
+    ev_path = os.path.join(EVID_DIR, f"{prop}.json")   # the tree this module runs from (/verif, or a snapshot of it)
     try:
         ev = json.load(open(ev_path))
         ev["coverage"]["negative_configurations"] = n
